@@ -63,11 +63,11 @@ def handle (inp out : String) : String :=
         let survived := (es.filter fun e => e.fired != 0 && e.st == "0").length
         let modeK := (mode.splitOn ":").headD "?"
         match Alloc.modelSweep op args with
-        | some (mn, _) =>
+        | some (mn, fk) =>
           if mn != n then s!"diff sw:{op} allocations-of-the-fault-free-run:impl={n}:model={mn}"
           else
             let bad := es.find? fun e => modeK != "multi" && (match e.k.toNat? with
-              | some k => (match Alloc.modelSweep op args with | some (_, f) => (f k) != (e.st == "0") | none => false)
+              | some k => (fk k) != (e.st == "0")
               | none => false)
             match bad with
             | some e => s!"diff sw:{op} fault-{e.k}:impl-status={e.st}:model-says-{if e.st == "0" then "error" else "ok"}"
